@@ -4,19 +4,24 @@ import NasdaqModel.Witness.C20
 /-
 C20 — the synchronous facade always returns or raises; its thread always ends.
 
-Model: `Model/SyncFacade.lean` (any number of caller threads, the executor's loop thread, peer events; one transition =
-one atomic statement of one thread; every interleaving allowed, nothing assumed fair).  All theorems quantify over ALL
-configurations (any number of threads, any programs, any peer script) and ALL interleavings; proofs are invariants by
-induction over the transition sequence and a strictly decreasing measure.
+Model: `Model/SyncFacade.lean` — the code after the fixes 86c1975 (send_unseq_data through the executor), 1753c2b
+(`_wait_for`: StateError once the loop thread is gone) and 564383d (the close callback takes no lock; `_shutdown`).
+Any number of caller threads, the executor's loop thread, peer events; one transition = one atomic statement of one
+thread; every interleaving allowed, nothing assumed fair.  All theorems quantify over ALL configurations (any number of
+threads, any programs, any peer script) and ALL interleavings; proofs are invariants by induction over the transition
+sequence and a strictly decreasing measure.
 
-FULL STATEMENT (what the property asks; it is FALSE of the unchanged code, see `C20_full_statement_false`):
+FULL STATEMENT, now proved as stated (`C20_no_hang`):
     ∀ cfg ls s, exec (init cfg) ls = some s → (∀ l, step s l = none) →
       ∀ i c, s.callers[i]? = some c → c.finished = true ∨ legitWait s c = true
-What is proved instead: the same conclusion for every run that never takes a step in the explicit excluded region
-`okStep` (`C20_no_hang_partial`): (a) no coroutine is handed to the loop after `AsyncSession.close` has begun,
-(b) no second `receive_msg` goes to wait while one is waiting.  Each excluded region contains a real defect of the
-library, proved on a concrete interleaving in `Witness/C20.lean` and replayed on the implementation by the harness.
-Everything else (safety invariants, run length bound, state error after close) is proved at full strength.
+together with `C20_thread_exits` (thread exited, event set, session closed, lock free whenever a close was started),
+`C20_close_returns_thread_exited`, `C20_after_close_state_error` (now including send_unseq_data) and the run-length bound.
+
+What stays `_partial` is a statement about the *exception class*, not about blocking: with two receive() calls waiting
+at once the queue's single `_recv_task` slot forgets one of them; close() then answers it with StateError (after the thread
+has exited) instead of EndOfQueue.  `C20_close_answers_blocked_receive_partial` proves "once close() has begun no receive
+is left waiting" for runs inside `okStep` (never two receives waiting at once); `C20_forgotten_receiver_needs_okStep`
+shows the hypothesis is needed (Witness.C20.run3, replayed on the implementation).
 -/
 namespace NasdaqModel.Props.C20
 open NasdaqModel.SyncFacade
@@ -42,27 +47,22 @@ theorem C20_thread_never_restarts {s s' : St} {l : Label} (h : step s l = some s
   step_mono h
 
 /-- lock discipline: a caller thread owns `close_lock` exactly while it is between `with self.close_lock:` and the end
-of that block; the loop thread exactly while it is inside the block of `on_close_coro`; hence mutual exclusion -/
+of that block; the loop thread never owns it (the close callback must not wait for a lock a caller may hold) -/
 theorem C20_lock_discipline {cfg : Cfg} {s : St} (h : Reachable cfg s) :
     (∀ (i : Nat) (c : Caller), s.callers[i]? = some c → (critPc c = true ↔ s.lock = some (.caller i))) ∧
-    (s.lock = some .loop ↔ (s.closePc = .haveLock ∨ s.closePc = .stopCalled ∨ s.closePc = .eventSet)) := by
+    s.lock ≠ some .loop := by
   have hI := inv1_reachable h
   refine ⟨fun i c hc => (hI.2 i c hc).2.2, ?_⟩
   have hg := hI.1
   revert hg; simp only [ginv]; cases s.closePc <;> simp_all
 
 theorem C20_mutual_exclusion {cfg : Cfg} {s : St} (h : Reachable cfg s) {i j : Nat} {ci cj : Caller}
-    (hi : s.callers[i]? = some ci) (hj : s.callers[j]? = some cj) (ci_in : critPc ci = true) :
-    (critPc cj = true → i = j) ∧ s.closePc ≠ .haveLock ∧ s.closePc ≠ .stopCalled ∧ s.closePc ≠ .eventSet := by
-  obtain ⟨hc, hl⟩ := C20_lock_discipline h
+    (hi : s.callers[i]? = some ci) (hj : s.callers[j]? = some cj) (ci_in : critPc ci = true)
+    (cj_in : critPc cj = true) : i = j := by
+  obtain ⟨hc, _⟩ := C20_lock_discipline h
   have li := (hc i ci hi).mp ci_in
-  refine ⟨fun cj_in => ?_, ?_⟩
-  · have lj := (hc j cj hj).mp cj_in
-    rw [li] at lj; simpa using lj
-  · have : s.lock ≠ some .loop := by rw [li]; simp
-    have := mt hl.mpr this
-    simp only [not_or] at this
-    exact this
+  have lj := (hc j cj hj).mp cj_in
+  rw [li] at lj; simpa using lj
 
 /-- when `close()` / `logout()` has returned, the executor thread has exited and the session reports closed -/
 theorem C20_close_returns_thread_exited {cfg : Cfg} {s : St} (h : Reachable cfg s) {i : Nat} {c : Caller}
@@ -87,8 +87,7 @@ theorem goodHist_spec {pre post : List (Op × Outcome)} {op : Op} {o : Outcome}
     exact ih h.1
 
 /-- after `close()` / `logout()` returned, every later call of that thread fails with the state error
-(receive, send_msg/send_debug, execute), close/logout return at once; `send_unseq_data` returns normally —
-that deviation from the property is recorded as `Witness.C20_witness_unseq_after_close` -/
+(receive, send_msg/send_debug, send_unseq_data, execute); close/logout return at once -/
 theorem C20_after_close_state_error {cfg : Cfg} {s : St} (h : Reachable cfg s) {i : Nat} {c : Caller}
     (hc : s.callers[i]? = some c) {pre post : List (Op × Outcome)} {op : Op} {o : Outcome}
     (hh : c.hist = pre ++ (op, o) :: post) (hcl : closedIn post = true) : o = expectedAfterClose op := by
@@ -121,9 +120,9 @@ theorem sumMu_init (ps : List (List Op)) : sumMu (ps.map initCaller) = 14 * (ps.
   | nil => rfl
   | cons p ps ih => simp only [List.map_cons, sumMu, ih, List.sum_cons, callerMu, initCaller, jobRank]; omega
 
-/-- the bound, explicitly: 14 steps per call, 8 for the loop thread, one per peer event -/
+/-- the bound, explicitly: 14 steps per call, 6 for the loop thread, one per peer event -/
 theorem C20_runs_bounded_explicit {cfg : Cfg} {ls : List Label} {s : St} (h : exec (init cfg) ls = some s) :
-    ls.length ≤ 14 * (cfg.progs.map List.length).sum + 8 + cfg.peer.length := by
+    ls.length ≤ 14 * (cfg.progs.map List.length).sum + 6 + cfg.peer.length := by
   have := C20_runs_bounded h
   simp only [mu, init, sumMu_init, closeRank] at this
   simpa using this
@@ -157,23 +156,21 @@ theorem terminal_iff (s : St) : terminal s = true ↔ ∀ l, step s l = none := 
     simp only [terminal, List.all_eq_true, Option.isNone_iff_eq_none]
     exact fun l _ => h l
 
-/-- **Every maximal run that stays outside the excluded region ends with all callers returned** (or waiting in
-`receive()` for a peer that may still send, on an open session with a live loop): no call blocks for ever.
-`_partial`: the hypothesis `execOk` (instead of `exec`) excludes runs in which a coroutine is submitted after
-`AsyncSession.close` began, or two receives wait at once — exactly where the witnesses below live. -/
-theorem C20_no_hang_partial {cfg : Cfg} {ls : List Label} {s : St} (h : execOk (init cfg) ls = some s)
+/-- **Every maximal run ends with all callers returned** (or waiting in `receive()` for a peer that may still send, on
+an open session with a live loop): no call blocks for ever — any number of threads, any interleaving, any peer events. -/
+theorem C20_no_hang {cfg : Cfg} {ls : List Label} {s : St} (h : exec (init cfg) ls = some s)
     (hmax : ∀ l, step s l = none) :
     ∀ (i : Nat) (c : Caller), s.callers[i]? = some c → c.finished = true ∨ legitWait s c = true :=
-  terminal_all_returned (invs_execOk h) hmax
+  terminal_all_returned (invs_reachable ⟨ls, h⟩) hmax
 
 /-- … and if a close was ever started (by `close()`, `logout()`, end of session or disconnect) the run ends with the
 executor thread exited, the event set, the session closed and the lock free -/
-theorem C20_thread_exits_partial {cfg : Cfg} {ls : List Label} {s : St} (h : execOk (init cfg) ls = some s)
+theorem C20_thread_exits {cfg : Cfg} {ls : List Label} {s : St} (h : exec (init cfg) ls = some s)
     (hmax : ∀ l, step s l = none) (hstarted : s.closePc ≠ .idle) :
     s.loopAlive = false ∧ s.closedEvent = true ∧ s.sessClosed = true ∧ s.lock = none := by
-  have I := invs_execOk h
+  have I := invs_reachable ⟨ls, h⟩
   obtain ⟨hd, ha⟩ := closing_completes I hmax hstarted
-  have r := C20_thread_exit_implies_closed ⟨ls, execOk_exec h⟩ ha
+  have r := C20_thread_exit_implies_closed ⟨ls, h⟩ ha
   refine ⟨ha, r.2.2.1, r.2.2.2.1, ?_⟩
   cases hl : s.lock with
   | none => rfl
@@ -182,78 +179,62 @@ theorem C20_thread_exits_partial {cfg : Cfg} {ls : List Label} {s : St} (h : exe
     | loop => exact absurd hl r.2.2.2.2
     | caller k => exact absurd hl (no_holder_when_terminal I hmax k)
 
-/-- with at least one close()/logout() in some program nobody is left waiting for the peer either: all returned.
-(stated for the caller that closes: it has finished, so by `C20_close_returns_thread_exited` the thread is gone) -/
-theorem C20_no_legit_wait_after_close_partial {cfg : Cfg} {ls : List Label} {s : St}
-    (h : execOk (init cfg) ls = some s) (hmax : ∀ l, step s l = none) (hstarted : s.closePc ≠ .idle) :
+/-- … and then nobody is left waiting for the peer either: all calls have returned or raised -/
+theorem C20_all_returned_after_close {cfg : Cfg} {ls : List Label} {s : St}
+    (h : exec (init cfg) ls = some s) (hmax : ∀ l, step s l = none) (hstarted : s.closePc ≠ .idle) :
     ∀ (i : Nat) (c : Caller), s.callers[i]? = some c → c.finished = true := by
   intro i c hc
-  rcases C20_no_hang_partial h hmax i c hc with hf | hw
+  rcases C20_no_hang h hmax i c hc with hf | hw
   · exact hf
-  · have ha := (C20_thread_exits_partial h hmax hstarted).1
+  · have ha := (C20_thread_exits h hmax hstarted).1
     unfold legitWait at hw
     split at hw
     · simp [ha] at hw
     · simp at hw
 
-/-! ### the excluded region is necessary: the full statement is false of the unchanged code -/
+/-- a blocked `_wait_for` is never blocked by a dead executor: with the thread gone the caller's next statement is enabled -/
+theorem C20_wait_enabled_when_thread_gone {s : St} {i : Nat} {c : Caller} (hc : s.callers[i]? = some c)
+    (hp : c.prog ≠ []) (hpc : c.pc = .wait) (hdead : s.loopAlive = false) : stepCaller s i ≠ none := by
+  rcases c with ⟨prog, pc, job, hist⟩
+  simp only at hp hpc; subst hpc
+  cases prog with
+  | nil => exact absurd rfl hp
+  | cons op rest =>
+    simp only [stepCaller, hc, callerStep, hdead]
+    cases op <;> cases job <;> simp [Op.isClose]
 
-private theorem hangs_spec {cfg : Cfg} {run : List Label} {i : Nat} {j : Job} {alive : Bool}
-    (h : Witness.C20.hangsAt cfg run i j alive = true) :
-    ∃ s c, exec (init cfg) run = some s ∧ (∀ l, step s l = none) ∧ s.callers[i]? = some c ∧
-      c.finished = false ∧ legitWait s c = false := by
-  unfold Witness.C20.hangsAt at h
-  split at h
-  · simp at h
-  · rename_i s hs
-    simp only [Bool.and_eq_true] at h
-    obtain ⟨⟨ht, _⟩, hc⟩ := h
-    split at hc
-    · rename_i c hcc
-      simp only [Bool.and_eq_true, beq_iff_eq, Bool.not_eq_true'] at hc
-      refine ⟨s, c, hs, (terminal_iff s).mp ht, hcc, ?_, hc.2⟩
-      simp [Caller.finished, hc.1.1]
-    · simp at hc
+/-! ### what remains of the single `_recv_task` slot: the exception class (partial) -/
 
-/-- submit after stop (DESIGN §6 #16): a maximal run of the model in which a caller never returns -/
-theorem C20_submit_after_stop_is_a_hang :
-    ∃ s c, exec (init Witness.C20.cfg1) Witness.C20.run1 = some s ∧ (∀ l, step s l = none) ∧
-      s.callers[0]? = some c ∧ c.finished = false ∧ legitWait s c = false :=
-  hangs_spec Witness.C20.C20_witness_submit_after_stop
+/-- inside `okStep` (never two receives waiting at once): once `AsyncSession.close` has begun no receive is left
+waiting — the waiting one was answered with EndOfQueue by `queue.stop()` -/
+theorem C20_close_answers_blocked_receive_partial {cfg : Cfg} {ls : List Label} {s : St}
+    (h : execOk (init cfg) ls = some s) (hcl : s.sessClosed = true) :
+    ∀ (i : Nat) (c : Caller), s.callers[i]? = some c → ∀ t, c.job ≠ .blocked t := by
+  intro i c hc t ht
+  have := ((inv3_execOk h) i c hc t ht).1
+  rw [hcl] at this
+  cases this
 
-theorem C20_close_lock_deadlock_is_a_hang :
-    ∃ s c, exec (init Witness.C20.cfg2) Witness.C20.run2 = some s ∧ (∀ l, step s l = none) ∧
-      s.callers[0]? = some c ∧ c.finished = false ∧ legitWait s c = false :=
-  hangs_spec Witness.C20.C20_witness_close_lock_deadlock
-
-theorem C20_concurrent_receive_is_a_hang :
-    ∃ s c, exec (init Witness.C20.cfg3) Witness.C20.run3 = some s ∧ (∀ l, step s l = none) ∧
-      s.callers[0]? = some c ∧ c.finished = false ∧ legitWait s c = false :=
-  hangs_spec Witness.C20.C20_witness_concurrent_receive_lost
-
-theorem C20_full_statement_false :
-    ¬ (∀ (cfg : Cfg) (ls : List Label) (s : St), exec (init cfg) ls = some s → (∀ l, step s l = none) →
-        ∀ (i : Nat) (c : Caller), s.callers[i]? = some c → c.finished = true ∨ legitWait s c = true) := by
-  intro hall
-  obtain ⟨s, c, he, ht, hc, hf, hw⟩ := C20_submit_after_stop_is_a_hang
-  rcases hall _ _ s he ht 0 c hc with h | h
-  · rw [hf] at h; cases h
-  · rw [hw] at h; cases h
+/-- the hypothesis is needed: in Witness.C20.run3 (two receives waiting, then close()) the session is closed and
+caller 0 is still waiting; it is released with StateError only when the thread has exited -/
+theorem C20_forgotten_receiver_needs_okStep :
+    (exec (init Witness.C20.cfg3) (Witness.C20.run3.take 21)).map
+      (fun s => (s.sessClosed, s.callers.map (·.job))) =
+      some (true, [.blocked 0, .done .eoq, .none]) := by decide
 
 /-- `soup.connect`: when it raises, its executor thread has been stopped and joined -/
 theorem C20_connect_raises_thread_exited (ev : LoginEv) : (connect ev).1 = true → (connect ev).2 = false := by
   cases ev <;> decide
 
-/-! ### non-vacuity: concrete runs inside the hypotheses -/
+/-! ### non-vacuity: concrete maximal runs -/
 
-/-- two threads, a blocked receive woken by close(), the closer returns, later calls get StateError: a maximal run
-with every step outside the excluded region -/
+/-- two threads, a blocked receive woken by close(), the closer returns, later calls get StateError -/
 example :
     let cfg : Cfg := { progs := [[.recv, .send], [.close, .recv]], peer := [.reply] }
     let run := Witness.C20.rep 3 (.caller 0) ++ [.job 0, .peer, .caller 0] ++   -- T0 receive() gets the message
       Witness.C20.rep 4 (.caller 0) ++ [.job 0] ++                            -- T0 send_msg() submitted and run
       Witness.C20.rep 6 (.caller 1) ++ [.job 1] ++ Witness.C20.rep 2 (.caller 1) ++   -- T1 close() up to closed_event.wait()
-      Witness.C20.rep 6 .close ++ [.stop] ++ Witness.C20.rep 2 (.caller 1) ++  -- close procedure, loop stops, T1 returns
+      Witness.C20.rep 4 .close ++ [.stop] ++ Witness.C20.rep 2 (.caller 1) ++  -- close procedure, loop stops, T1 returns
       [.caller 0] ++ Witness.C20.rep 2 (.caller 1)                            -- T0 gets its result, T1 receive() → StateError
     (execOk (init cfg) run).map (fun s => (terminal s, s.loopAlive, s.callers.map (·.hist))) =
       some (true, false, [[(.send, .ok), (.recv, .msg)], [(.recv, .state), (.close, .ok)]]) := by decide
@@ -261,13 +242,13 @@ example :
 /-- a receive blocked when the peer ends the session gets EndOfQueue; the thread exits -/
 example :
     let cfg : Cfg := { progs := [[.recv]], peer := [.endOfSession] }
-    let run := Witness.C20.rep 3 (.caller 0) ++ [.job 0, .peer] ++ Witness.C20.rep 6 .close ++ [.stop, .caller 0]
+    let run := Witness.C20.rep 3 (.caller 0) ++ [.job 0, .peer] ++ Witness.C20.rep 4 .close ++ [.stop, .caller 0]
     (execOk (init cfg) run).map (fun s => (terminal s, s.loopAlive, s.callers.map (·.hist))) =
       some (true, false, [[(.recv, .eoq)]]) := by decide
 
-/-- the witnesses are NOT inside the hypothesis of the partial theorem (they step into the excluded region) -/
-example : execOk (init Witness.C20.cfg1) Witness.C20.run1 = none := by decide
-example : execOk (init Witness.C20.cfg2) Witness.C20.run2 = none := by decide
+/-- the repaired interleavings are ordinary runs of the model (and inside `okStep`, except the two-receive one) -/
+example : (execOk (init Witness.C20.cfg1) Witness.C20.run1).isSome = true := by decide
+example : (execOk (init Witness.C20.cfg2) Witness.C20.run2).isSome = true := by decide
 example : execOk (init Witness.C20.cfg3) Witness.C20.run3 = none := by decide
 
 end NasdaqModel.Props.C20
